@@ -80,7 +80,7 @@ REFUSED_OK = [
     (r"unsupported: load/store exclusive", r"(ldrex|strex|lda|stl|ldaex|stlex)", "exclusive and acquire/release accesses"),
     (r"unsupported: msr immediate", r"msr", "status register write"),
     (r"unsupported: msr/mrs/barriers", r"(msr|mrs|dmb|dsb|isb|clrex|cps|bxj|eret|subs pc|dbg|ssbb|pssbb|sb|csdb|esb|hint)", "system instructions"),
-    (r"unsupported: mrs/msr/bxj", r"(mrs|msr|bxj|q(d)?(add|sub)|eret|hvc|smc|hlt|crc32)", "status registers, saturating arithmetic, monitor calls"),
+    (r"unsupported: mrs/msr/bxj", r"(mrs|msr|bxj|eret|hvc|smc|hlt|crc32)", "status registers, monitor calls"),
     (r"unsupported: hint", r"(wfe|wfi|sev|sevl|dbg|hint|esb|csdb|psb|tsb|bti|aut|pac|pacbti)", "wait/event hints"),
     (r"unsupported: unprivileged", r"(ldr|str)s?[bh]?t", "ldrt/strt family"),
     (r"unsupported: flag-setting data processing to pc", r"\w+s\w* pc,", "exception return"),
@@ -91,7 +91,7 @@ REFUSED_OK = [
     (r"unsupported: smlaw", r"smlaw|smulw|smlal[bt]", "word-by-halfword / long halfword multiplies"),
     (r"unsupported: dual/word-by-halfword", r"smlaw|smulw|sml[as]l?dx?|smu[as]dx?|usada?8", "dual multiplies"),
     (r"unsupported/UNDEFINED: long multiply", r"smlal[bt]|sml[as]ldx?", "halfword long multiplies"),
-    (r"unsupported: parallel/saturating", r"(s|u|q|sh|uh|uq)((add|sub)(8|16)|asx|sax)|q(d)?(add|sub)|sel|crc32", "parallel arithmetic"),
+    (r"unsupported: parallel/saturating", r"(s|u|q|sh|uh|uq)((add|sub)(8|16)|asx|sax)|sel|crc32", "parallel arithmetic"),
     (r"unsupported: sxtab16", r"[su]xta?b16", "16-bit pair extends"),
     (r"unsupported: ssat16/usat16", r"[su]sat16", "16-bit saturation"),
     (r"UNDEFINED/unsupported: T32 data-processing opcode", r"pkh", "pack halfword"),
@@ -546,6 +546,8 @@ def aeabi_hooks(stubs, trace):
         trace.append(S(m.r[0]))
         m.r[0] = (3 * m.r[0] + 1) & M
     table = {"__aeabi_idiv": idiv, "__aeabi_uidiv": uidiv, "__aeabi_idivmod": idivmod, "__aeabi_uidivmod": uidivmod, "ext": ext,
+             "__clzsi2": lambda m: m.r.__setitem__(0, 32 - m.r[0].bit_length()),
+             "__bswapsi2": lambda m: m.r.__setitem__(0, int.from_bytes(m.r[0].to_bytes(4, "little"), "big")),
              "__aeabi_lmul": lambda m: w64(m, r64(m, 0) * r64(m, 2)), "__aeabi_llsl": lambda m: w64(m, r64(m, 0) << (m.r[2] & 63) if m.r[2] < 64 else 0),
              "__aeabi_llsr": lambda m: w64(m, r64(m, 0) >> m.r[2] if m.r[2] < 64 else 0),
              "__aeabi_lasr": lambda m: w64(m, arm32.sx(r64(m, 0), 64) >> min(m.r[2], 63))}
@@ -650,7 +652,182 @@ def _run_exec(d):
     print("function runs:", total)
     for tag in executed:
         print(tag, len(executed[tag]), sorted(executed[tag]))
+    common = {"adc", "add", "and", "b", "bic", "bl", "blx", "bx", "cmn", "cmp", "eor", "ldm", "ldr", "ldrb", "ldrh", "ldrsb", "ldrsh", "mov", "mul", "mvn", "orr", "rev",
+              "rsb", "sbc", "stm", "str", "strb", "strh", "sub", "sxtb", "sxth", "tst", "uxtb"}
+    need = {"a32": common | {"add<c>", "mov<c>", "bx<c>", "mla", "mls", "smull", "umull", "smlal", "movw", "movt", "clz", "ubfx", "sbfx", "bfi", "smulbb", "qadd"},
+            "v7m": common | {"it", "cbz", "cbnz", "sdiv", "udiv", "tbb", "ldrd", "strd", "mla", "mls", "smull", "umull", "movw", "movt", "clz", "ubfx", "bfi", "orn", "uxth"},
+            "v6m": common | {"adr", "uxth"}}
+    for tag in need:
+        assert need[tag] <= executed[tag], (tag, sorted(need[tag] - executed[tag]))
     return executed
+
+
+# ------------------------------------------------------------------------------------------------ (c) direct assertions
+
+def assemble(src, thumb, d):
+    """assemble with llvm-mc (independent encoder) -> bytes of .text"""
+    o, b = os.path.join(d, "s.o"), os.path.join(d, "s.bin")
+    flags = THUMB_FLAGS if thumb else ARM_FLAGS
+    r = subprocess.run([LLVM_MC, "-filetype=obj", "-o", o] + flags, input=".syntax unified\n.text\n" + src + "\n", capture_output=True, text=True)
+    assert r.returncode == 0, r.stderr
+    subprocess.run(["llvm-objcopy", "-O", "binary", "--only-section=.text", o, b], check=True)
+    return open(b, "rb").read()
+
+
+MARK = bytes.fromhex("deadbeeffeed")
+
+
+def assemble_all(fn, d):
+    """assemble every string literal passed to A(...) / T(...) / asm(...) in the source of `fn` with two llvm-mc runs -> {(thumb, src): bytes}"""
+    import ast
+    import inspect
+    src = inspect.getsource(fn)
+    lit = lambda tag: [ast.literal_eval('"%s"' % m) for m in re.findall(tag + r'\("((?:[^"\\]|\\.)*)"\)', src)]  # noqa
+    out = {}
+    for thumb, tag in ((False, "A"), (True, "T")):
+        ss = sorted(set(lit(r"\b" + tag) + lit(r"\basm")))
+        body = "".join(".org %d\n%s\n.byte 0xde,0xad,0xbe,0xef,0xfe,0xed\n" % (256 * k, re.sub(r"\bl\b", "l%d" % k, s)) for k, s in enumerate(ss))
+        data = assemble(body, thumb, d)
+        for k, s in enumerate(ss):
+            slot = data[256 * k:256 * (k + 1)]
+            out[(thumb, s)] = slot[:slot.rindex(MARK)]
+    return out
+
+
+def _scratch():
+    d = os.path.join(os.path.dirname(os.path.dirname(os.path.abspath(__file__))), "build", "test_arm32c.%d" % os.getpid())
+    os.makedirs(d, exist_ok=True)
+    return d
+
+
+def test_thumb16_spelling_inside_it_blocks():
+    """16-bit instructions as members of an IT block: LLVM prints them with the condition and without the 's' the encoding shows
+    outside an IT block; the emulator's text(insn, 'eq') must agree (this pins which encodings set flags only outside IT blocks)."""
+    hs = []
+    for h in range(0, 0xE800, 3):
+        try:
+            i = arm32.decode_thumb(h)
+        except arm32.IllegalInstruction:
+            continue
+        if i.k in ("it", "cbz", "trap") or i.aux in ("bcond", "movs-t2") or (i.k == "nop" and i.name != "nop"):
+            continue
+        hs.append(h)
+    blobs = [bytes.fromhex("08bf") + h.to_bytes(2, "little") for h in hs]        # it eq ; insn
+    blk = lambda b: "[" + ",".join("0x%02x" % x for x in b) + "]\n"  # noqa
+    r = subprocess.run([LLVM_MC, "--disassemble"] + THUMB_FLAGS, input="".join(blk(b) + blk(THUMB_SENT) for b in blobs), capture_output=True, text=True)
+    lines = [re.sub(r"\s+", " ", re.sub(r"\s+@.*$", "", x).strip()) for x in r.stdout.splitlines() if x.startswith("\t") and not x.startswith("\t.")]
+    chunks, cur = [], []
+    for x in lines:
+        if x == "wfi":
+            chunks.append(cur)
+            cur = []
+        else:
+            cur.append(x)
+    assert len(chunks) == len(hs)
+    same, bad = 0, []
+    for h, c in zip(hs, chunks):
+        mine = arm32.text(arm32.decode_thumb(h), "eq")
+        if len(c) == 2 and c[0] == "it eq" and c[1].replace(".w", "") == mine:
+            same += 1
+        else:
+            bad.append((hex(h), mine, c))
+    print("T16 inside IT:", len(hs), "same", same)
+    assert not bad, (len(bad), bad[:20])
+
+
+def test_flags_it_interworking_alignment():
+    d = _scratch()
+    try:
+        pre = assemble_all(test_flags_it_interworking_alignment, d)
+        A = lambda s: pre[(False, s)]  # noqa
+        T = lambda s: pre[(True, s)]  # noqa
+
+        def flags(code, args, thumb=False):
+            m = arm32.run(code, 0x100, 0x100, args, thumb=thumb).machine
+            return (m.n, m.z, m.c, m.v)
+        for thumb, asm in ((False, A), (True, T)):
+            adds, subs = asm("adds r0, r0, r1\nbx lr"), asm("subs r0, r0, r1\nbx lr")
+            assert flags(adds, [0x7FFFFFFF, 1], thumb) == (1, 0, 0, 1)
+            assert flags(adds, [0xFFFFFFFF, 1], thumb) == (0, 1, 1, 0)
+            assert flags(adds, [0x80000000, 0x80000000], thumb) == (0, 1, 1, 1)
+            assert flags(subs, [0, 1], thumb) == (1, 0, 0, 0)
+            assert flags(subs, [5, 5], thumb) == (0, 1, 1, 0)
+            assert flags(subs, [0x80000000, 1], thumb) == (0, 0, 1, 1)
+            lsls = asm("lsls r0, r0, r1\nbx lr")
+            for a, n, res, c in ((1, 32, 0, 1), (1, 33, 0, 0), (0x80000001, 1, 2, 1), (3, 0, 3, None), (1, 256, 1, None), (1, 0x120, 0, 1)):
+                r = arm32.run(lsls, 0x100, 0x100, [a, n], thumb=thumb)
+                assert r.r0 == res and (c is None or r.machine.c == c), (thumb, a, n, r.r0, r.machine.c)
+            asrs = asm("asrs r0, r0, r1\nbx lr")
+            r = arm32.run(asrs, 0x100, 0x100, [0x80000000, 40], thumb=thumb)
+            assert r.r0 == 0xFFFFFFFF and r.machine.c == 1
+            rors = asm("rors r0, r0, r1\nbx lr")
+            r = arm32.run(rors, 0x100, 0x100, [0x80000001, 32], thumb=thumb)
+            assert r.r0 == 0x80000001 and r.machine.c == 1
+            r = arm32.run(asm("adds r0, r0, r1\nadcs r0, r0, r0\nsbcs r0, r0, r1\nbx lr"), 0x100, 0x100, [0xFFFFFFFF, 2], thumb=thumb)
+            assert r.r0 == 0 and r.machine.z == 1, hex(r.r0)
+        # carry out of the A32 shifter operand / modified immediate, rrx
+        r = arm32.run(A("movs r2, r1, lsr #1\nadc r0, r0, #0\nmov r3, r1, rrx\nmovs r2, #0xf0000000\nadc r0, r0, r3\nbx lr"), 0x100, 0x100, [10, 3])
+        assert r.r0 == (10 + 1 + (0x80000001) + 1) & 0xFFFFFFFF, hex(r.r0)
+        # pc reads: A32 pc+8, Thumb pc+4 word-aligned for adr / literal loads
+        assert arm32.run(A("mov r0, pc\nbx lr"), 0x100, 0x100).r0 == 0x108
+        assert arm32.run(T("mov r0, pc\nbx lr"), 0x100, 0x100, thumb=True).r0 == 0x104
+        assert arm32.run(T("nop\nadr r0, l\nbx lr\n.balign 4\nl: .word 7"), 0x100, 0x100, thumb=True).r0 == 0x108
+        assert arm32.run(T("nop\nldr r0, l\nbx lr\n.balign 4\nl: .word 0x12345678"), 0x100, 0x100, thumb=True).r0 == 0x12345678
+        assert arm32.run(A("ldr r0, l\nbx lr\nl: .word 0x12345678"), 0x100, 0x100).r0 == 0x12345678
+        # IT blocks: conditions are evaluated per instruction; 16-bit adds does not set flags inside
+        it = T("cmp r0, r1\nitt eq\naddeq r2, #1\naddeq r2, #1\nite lt\nmovlt r0, #1\nmovge r0, #2\nadd r0, r0, r2, lsl #4\nbx lr")
+        assert arm32.run(it, 0x100, 0x100, [5, 5, 0], thumb=True).r0 == 2 + 32
+        assert arm32.run(it, 0x100, 0x100, [4, 5, 0], thumb=True).r0 == 1
+        assert arm32.run(it, 0x100, 0x100, [6, 5, 0], thumb=True).r0 == 2
+        try:
+            arm32.run(T(".short 0xbf08, 0xd001\nbx lr"), 0x100, 0x100, thumb=True)           # conditional branch inside an IT block
+            raise AssertionError
+        except arm32.IllegalInstruction:
+            pass
+        # interworking: ARM -> Thumb via bx, Thumb return via bx lr to the (ARM) sentinel; blx links with the Thumb bit
+        code = A("bx r1") + T("movs r0, #7\nbx lr")
+        assert arm32.run(code, 0x100, 0x100, [0, 0x105]).r0 == 7
+        code = T("push {r4, lr}\nblx r1\nadds r0, #1\npop {r4, pc}\n.balign 4") + A("mov r0, lr\nbx lr")
+        assert arm32.run(code, 0x100, 0x100, [0, 0x108], thumb=True).r0 == 0x105 + 1
+        # push/pop order and writeback, ldm/stm modes
+        r = arm32.run(A("push {r0, r1, r2}\npop {r2, r3}\npop {r1}\nstmib sp, {r0, r3}\nldmib sp, {r0, r12}\nadd r0, r0, r12\nbx lr"), 0x100, 0x100, [1, 2, 3])
+        assert (r.r0, r.regs[1], r.regs[2], r.regs[3]) == (1 + 2, 3, 1, 2) and r.regs[13] == (1 << 18) - 16
+        r = arm32.run(A("stmda r1, {r2, r3}\nldmdb r1!, {r0}\nbx lr"), 0x100, 0x100, [0, 0x1000, 5, 6])
+        assert r.r0 == 5 and r.regs[1] == 0xFFC and r.machine.read(0x1000, 4) == 6
+        # alignment
+        un = A("ldr r0, [r1]\nbx lr")
+        img = [(0x2000, bytes(range(16)))]
+        assert arm32.run(un, 0x100, 0x100, [0, 0x2001], extra_images=img).r0 == 0x04030201
+        for bad, kw in ((un, {"strict_align": True}), (A("ldm r1, {r0, r2}\nbx lr"), {}), (A("ldrd r2, r3, [r1]\nbx lr"), {})):
+            try:
+                arm32.run(bad, 0x100, 0x100, [0, 0x2001], extra_images=img, **kw)
+                raise AssertionError("no alignment fault")
+            except arm32.MisalignedAccess:
+                pass
+        # step limit, traps, refused encodings, hooks
+        for code, exc, thumb in ((A("b ."), arm32.StepLimit, False), (T("b ."), arm32.StepLimit, True), (A("bkpt #1"), arm32.Trap, False), (T("udf #1"), arm32.Trap, True),
+                                 (A("svc #0"), arm32.Trap, False), (A("vadd.f32 s0, s0, s1"), arm32.IllegalInstruction, False), (T("wfi"), arm32.IllegalInstruction, True),
+                                 (A("mrs r0, apsr"), arm32.IllegalInstruction, False), (T("dmb"), arm32.IllegalInstruction, True)):
+            try:
+                arm32.run(code, 0x100, 0x100, max_steps=50, thumb=thumb)
+                raise AssertionError("no %s" % exc.__name__)
+            except exc:
+                pass
+
+        def host(m):
+            m.r[0] = (m.r[0] * 10 + m.r[1]) & 0xFFFFFFFF
+        for thumb, asm in ((False, A), (True, T)):
+            code = asm("push {r4, lr}\nmov r4, r2\nblx r3\nadd r0, r0, r4\npop {r4, pc}")
+            assert arm32.run(code, 0x100, 0x100, [4, 2, 100, 0x801 if thumb else 0x800], thumb=thumb, hooks={0x800: host}).r0 == 142
+        # divide: truncation, division by zero gives 0 (no trap), INT_MIN / -1
+        for thumb, asm in ((False, A), (True, T)):
+            sd, ud = asm("sdiv r0, r0, r1\nbx lr"), asm("udiv r0, r0, r1\nbx lr")
+            for a, b, q in ((-7, 2, -3), (7, -2, -3), (7, 0, 0), (-2147483648, -1, -2147483648)):
+                assert arm32.sx(arm32.run(sd, 0x100, 0x100, [a, b], thumb=thumb).r0, 32) == q
+            assert arm32.run(ud, 0x100, 0x100, [0xFFFFFFFF, 2], thumb=thumb).r0 == 0x7FFFFFFF
+            assert arm32.run(ud, 0x100, 0x100, [5, 0], thumb=thumb).r0 == 0
+    finally:
+        shutil.rmtree(d, ignore_errors=True)
 
 
 if __name__ == "__main__":
